@@ -34,6 +34,11 @@ PROPS["C03"]["level_text"] += " " + (
     "h' ++ hist ++ block; the writers' command hypotheses are all discharged: cmdOK, lockstep, faithful "
     "(catable_block_faithful via faithful_of_final) and copy_len() >= 2 (catable_copylen2: with the dictionary off every "
     "sound match at a position with >= 4 bytes left is an LZ77 match of length >= 2). "
+    "catable_greedy_bits_position_independent removes the MetaBlockSplit hypothesis for the greedy path: "
+    "CreateBackwardReferences, BrotliBuildMetaBlockGreedy (BV.Greedy.buildGreedy, any float oracle with OracleOK, any "
+    "static context map with StaticOK; w-greedy's greedy_split_wellformed), BrotliStoreMetaBlock - no panic, and the "
+    "bits are read from every foreign state to h' ++ hist ++ block (BrotliOptimizeHistograms between builder and writer: "
+    "w-greedy's greedy_optimized_roundtrip, not composed here). "
     "Necessity: dictionary_reference_is_position_dependent and default_cache_is_position_dependent are concrete "
     "counterexamples when the dictionary is on / the cache is the default [4,11,15,16]. On the real code the same "
     "statement is judged by stage `hasher catable`: members cut into blocks, BrotliCreateBackwardReferences on every "
